@@ -45,13 +45,17 @@ def check(prop, tier, seed):
             for order in perms:
                 for role in ("acceptor", "initiator"):
                     scns.append(dict(id="gate-%d" % k, kind="gate", role=role, gate=gate, n=n, order=list(order),
-                                     startSeq=rnd.choice([0, 0, 4]), buf=rnd.choice([0, 1, 10])))
+                                     startSeq=rnd.choice([0, 0, 4]), buf=rnd.choice([0, 1, 10]), replyAt=-1))
+                    k += 1
+                    # the same schedule with a reply of the inbound path produced while senders are held at the gate
+                    scns.append(dict(id="gate-%d" % k, kind="gate", role=role, gate=gate, n=n, order=list(order),
+                                     startSeq=rnd.choice([0, 0, 4]), buf=rnd.choice([1, 10]), replyAt=rnd.randint(0, n)))
                     k += 1
     ngate = len(scns)
     for i in range(40 if quick else 400):
         scns.append(dict(id="stress-%d" % i, kind="stress", role=rnd.choice(["acceptor", "initiator"]), n=rnd.choice([2, 4, 8, 16]),
                          perSender=rnd.choice([3, 10, 30]), hb=rnd.choice([1, 2]), seed=rnd.randint(1, 10**6),
-                         startSeq=rnd.choice([0, 0, 7]), buf=rnd.choice([0, 1, 10])))
+                         startSeq=rnd.choice([0, 0, 7]), buf=rnd.choice([0, 1, 10]), replyAt=-1, **{"yield": rnd.choice([0, 3, 10, 30])}))
     traces = []
     # GOMAXPROCS settings: the pool is split over them
     for gi, gm in enumerate((["1", "4", "16"] if quick else ["1", "2", "4", "16"])):
